@@ -256,7 +256,13 @@ func vExplore(c *vCtx, sc *vScenario, pb, db, fb int) {
 			c.Nontrivial(sc.Name + vTraceSig(r.trace))
 		}
 		if len(c.Samples) < c.maxSamples && pre > 0 {
-			c.Sample(map[string]any{"scenario": sc.Name, "choices": vChoices(r.trace, len(r.trace)), "preemptions": pre, "outcome": r.outcome})
+			nz := map[string]int{}
+			for i, p := range r.trace {
+				if p.Chosen != 0 {
+					nz[fmt.Sprintf("point %d (%s)", i, p.Desc)] = p.Chosen
+				}
+			}
+			c.Sample(map[string]any{"scenario": sc.Name, "points": len(r.trace), "non_default_choices": nz, "preemptions": pre, "outcome": r.outcome})
 		}
 		for i := len(prefix); i < len(r.trace); i++ {
 			p := r.trace[i]
@@ -504,7 +510,7 @@ func init() {
 	}
 }
 
-var vRaceFrame = regexp.MustCompile(`^\s+(github\.com/wizenheimer/comet\.[^\s(]+)`)
+var vRaceFrame = regexp.MustCompile(`^\s+(github\.com/wizenheimer/comet\.\S+?)\(\)\s*$`)
 
 // vRaceShard runs the -race binary (built by bin/check, path in VERIF_RACE_BIN) and
 // turns every distinct data race that involves a non-harness comet frame into a violation.
@@ -539,27 +545,50 @@ func vRaceShard(tier string) vShard {
 		sc.Buffer(make([]byte, 1<<20), 1<<20)
 		scenario := ""
 		inRace := false
-		var frames []string
 		var block []string
+		isHarness := func(f string) bool {
+			return strings.Contains(f, "comet.v") || strings.Contains(f, "comet.(*v") || strings.Contains(f, "comet.init.") || strings.Contains(f, "comet.VerifMain")
+		}
 		flush := func() {
 			if !inRace {
 				return
 			}
 			inRace = false
-			var fs []string
-			for _, f := range frames {
-				if strings.Contains(f, ".v") && (strings.Contains(f, "comet.v") || strings.Contains(f, "comet.(*v")) {
-					continue // harness frame
+			// the report is a sequence of stacks separated by blank lines; the first two are
+			// the conflicting accesses: label the race by the innermost non-harness comet
+			// frame of each
+			var stacks [][]string
+			cur := []string{}
+			for _, l := range block[1:] {
+				if strings.TrimSpace(l) == "" {
+					if len(cur) > 0 {
+						stacks = append(stacks, cur)
+					}
+					cur = []string{}
+					continue
 				}
-				fs = append(fs, strings.TrimPrefix(f, "github.com/wizenheimer/comet."))
+				cur = append(cur, l)
+			}
+			if len(cur) > 0 {
+				stacks = append(stacks, cur)
+			}
+			var fs []string
+			for i, st := range stacks {
+				if i >= 2 {
+					break
+				}
+				for _, l := range st {
+					if m := vRaceFrame.FindStringSubmatch(l); m != nil && !isHarness(m[1]) {
+						fs = append(fs, strings.TrimPrefix(m[1], "github.com/wizenheimer/comet."))
+						break
+					}
+				}
 			}
 			if len(fs) == 0 {
 				c.Extra["race_reports_without_comet_frame"]++
 				return
 			}
-			if len(fs) > 2 {
-				fs = fs[:2]
-			}
+			sort.Strings(fs)
 			b := strings.Join(block, "\n")
 			if len(b) > 3000 {
 				b = b[:3000]
@@ -578,7 +607,6 @@ func vRaceShard(tier string) vShard {
 			case strings.HasPrefix(line, "WARNING: DATA RACE"):
 				flush()
 				inRace = true
-				frames = nil
 				block = []string{line}
 				c.Extra["race_reports"]++
 			case strings.HasPrefix(line, "=================="):
@@ -588,14 +616,6 @@ func vRaceShard(tier string) vShard {
 			default:
 				if inRace {
 					block = append(block, line)
-					if m := vRaceFrame.FindStringSubmatch(line); m != nil {
-						// keep the first comet frame of each of the two stacks
-						if len(block) >= 2 && (strings.HasPrefix(block[len(block)-2], "Write at") || strings.HasPrefix(block[len(block)-2], "Read at") || strings.HasPrefix(block[len(block)-2], "Previous") || strings.Contains(block[len(block)-2], " by goroutine") || strings.Contains(block[len(block)-2], " by main")) {
-							frames = append(frames, m[1])
-						} else if len(frames) < 2 {
-							frames = append(frames, m[1])
-						}
-					}
 				}
 			}
 		}
